@@ -272,3 +272,19 @@ def run(ctx):
         if bb in l1 and strip_generics(t["fn"].get("path", "")).endswith("RtMessage::add_field"):
             g1.add(tag_of(e1.call_args(bb)[1]))
     ctx.check("reply-version", "classic-srep-unchanged", "VER" not in g1 and "VERS" not in g1, "classic SREP carries no VER/VERS", "classic SREP carries %s" % sorted(g1), ctx.loc(ms))
+
+    # ------------------------------------------------------------------ "always if that number is among the first four entries and the other conditions hold":
+    # a conforming request lists its tags in ascending *wire* order (VER < SRV < NONC < ZZZZ as little-endian words); the decoder enforces ascending
+    # order with the derived ordering of `Tag`, which is the declaration order.  That the two agree, and the decoder's other acceptance conditions,
+    # are C05's tag-table / decoder rules - obligations of C12 as well (a decoder that orders SRV before VER refuses every conforming request that
+    # names this server).
+    import importlib
+    from framework import Ctx
+    c5 = importlib.import_module("rules.C05")
+    sub5 = Ctx("C05", P, ctx.repo, "quick", ctx.feature)
+    c5.run(sub5)
+    mine5 = [i for i in sub5.instances if i["rule"].startswith(("tag-table", "decoder-guards", "ascending-enforced"))]
+    bad5 = [i for i in mine5 if not i["ok"]]
+    ctx.check("conforming-request-accepted", "decoder-orders-tags-by-wire-value(C05)", not bad5, "the decoder accepts exactly the well-formed encodings (C05: %d tag-table / decoder instances)" % len(mine5),
+              "a conforming framed request can be refused (or a malformed one accepted) by the decoder: " + (bad5[0]["detail"] if bad5 else ""), bad5[0].get("loc") if bad5 else None)
+    ctx.floor("conforming-request-accepted", len(mine5), 20, "C05 tag-table / decoder instances")
